@@ -244,6 +244,7 @@ func (s *Scorch) introduceSegment(next *segmentIntroduction) error {
 	atomic.StoreUint64(&s.stats.CurRootEpoch, s.root.epoch)
 	// release lock
 	s.rootLock.Unlock()
+	verifIntroduceSegment(s, next, newSnapshot)
 
 	if rootPrev != nil {
 		_ = rootPrev.DecRef()
@@ -263,6 +264,7 @@ func (s *Scorch) introduceSegment(next *segmentIntroduction) error {
 func (s *Scorch) introducePersist(persist *persistIntroduction) {
 	atomic.AddUint64(&s.stats.TotIntroducePersistBeg, 1)
 	defer atomic.AddUint64(&s.stats.TotIntroducePersistEnd, 1)
+	verifIDs := verifPersistedIDs(persist.persisted)
 
 	s.rootLock.Lock()
 	root := s.root
@@ -331,6 +333,7 @@ func (s *Scorch) introducePersist(persist *persistIntroduction) {
 	s.root = newIndexSnapshot
 	atomic.StoreUint64(&s.stats.CurRootEpoch, s.root.epoch)
 	s.rootLock.Unlock()
+	verifIntroducePersist(s, verifIDs, newIndexSnapshot)
 
 	if rootPrev != nil {
 		_ = rootPrev.DecRef()
@@ -344,6 +347,7 @@ func (s *Scorch) introducePersist(persist *persistIntroduction) {
 func (s *Scorch) introduceMerge(nextMerge *segmentMerge) {
 	atomic.AddUint64(&s.stats.TotIntroduceMergeBeg, 1)
 	defer atomic.AddUint64(&s.stats.TotIntroduceMergeEnd, 1)
+	verifInfo := verifMergeTasks(nextMerge)
 
 	s.rootLock.RLock()
 	root := s.root
@@ -504,6 +508,7 @@ func (s *Scorch) introduceMerge(nextMerge *segmentMerge) {
 	atomic.StoreUint64(&s.stats.CurRootEpoch, s.root.epoch)
 	// release lock
 	s.rootLock.Unlock()
+	verifIntroduceMerge(s, verifInfo, skipped, newSnapshot)
 
 	if rootPrev != nil {
 		_ = rootPrev.DecRef()
